@@ -317,7 +317,12 @@ def _leaf_from_array(g, ins):
         vals = "nan"
     elif g.rng.random() < 0.15:
         vals = "ties"
-    return {"shape": list(shape), "dtype": dtype, "chunks": [list(c) for c in rand_chunks(g.rng, shape)], "vals": vals, "seed": g.rng.randrange(10**6)}
+    p = {"shape": list(shape), "dtype": dtype, "chunks": [list(c) for c in rand_chunks(g.rng, shape)], "vals": vals, "seed": g.rng.randrange(10**6)}
+    # a few leaves carry lock= (decided from the seed so the random stream of older cases is unchanged): a named
+    # SerializableLock is a value (equal names are one lock), False means no lock
+    if p["seed"] % 16 == 0:
+        p["lock"] = False if p["seed"] % 32 == 0 else f"verif-lock-{p['seed'] % 3}"
+    return p
 
 
 def _leaf_np(p):
@@ -331,7 +336,12 @@ def _leaf_da(p):
     a = _leaf_np(p)
     if SRC_LOG is not None:
         SRC_LOG.append((a, a.copy()))
-    return da().from_array(a, chunks=tuple(tuple(c) for c in p["chunks"]))
+    kw = {}
+    if p.get("lock") is not None:
+        from dask.utils import SerializableLock
+
+        kw["lock"] = SerializableLock(p["lock"]) if p["lock"] else False
+    return da().from_array(a, chunks=tuple(tuple(c) for c in p["chunks"]), **kw)
 
 
 defop("from_array", 0, _leaf_from_array, _leaf_np, _leaf_da, "leaf", w=0)
